@@ -13,5 +13,5 @@ PY
 rc=$?
 if [ $rc -ne 0 ]; then git checkout -- .; exit $rc; fi
 git diff | grep '^[-+]' | grep -v '^+++\|^---'
-cd /verif && ./check $prop ${TIER:+--tier $TIER}; echo "exit=$?"
+cd /verif && VERIF_EVIDENCE_DIR=/tmp/seed-evidence ./check $prop ${TIER:+--tier $TIER}; echo "exit=$?"
 cd /repo && git checkout -- .
